@@ -5,28 +5,26 @@ use std::cell::Cell;
 
 use fn_graph::{DataAccessDyn, Edge, FnGraph, FnGraphBuilder, FnId, TypeIds};
 
-use crate::model::{Built, GraphSpec, BK, EK};
+use crate::model::{Built, GraphSpec, Mask, BK, EK};
 
-pub struct D0;
-pub struct D1;
-pub struct D2;
-pub struct D3;
-pub struct D4;
-pub struct D5;
-pub struct D6;
-pub struct D7;
+/// 128 distinct marker data types.
+pub struct D<const N: usize>;
+
+macro_rules! type_ids_table {
+    ($t:expr; $($n:literal)*) => {
+        match $t {
+            $( $n => TypeId::of::<D<$n>>(), )*
+            _ => TypeId::of::<D<127>>(),
+        }
+    };
+}
 
 fn type_id_of(t: usize) -> TypeId {
-    match t {
-        0 => TypeId::of::<D0>(),
-        1 => TypeId::of::<D1>(),
-        2 => TypeId::of::<D2>(),
-        3 => TypeId::of::<D3>(),
-        4 => TypeId::of::<D4>(),
-        5 => TypeId::of::<D5>(),
-        6 => TypeId::of::<D6>(),
-        _ => TypeId::of::<D7>(),
-    }
+    type_ids_table!(t;
+        0 1 2 3 4 5 6 7 8 9 10 11 12 13 14 15 16 17 18 19 20 21 22 23 24 25 26 27 28 29 30 31
+        32 33 34 35 36 37 38 39 40 41 42 43 44 45 46 47 48 49 50 51 52 53 54 55 56 57 58 59 60 61 62 63
+        64 65 66 67 68 69 70 71 72 73 74 75 76 77 78 79 80 81 82 83 84 85 86 87 88 89 90 91 92 93 94 95
+        96 97 98 99 100 101 102 103 104 105 106 107 108 109 110 111 112 113 114 115 116 117 118 119 120 121 122 123 124 125 126 127)
 }
 
 thread_local! {
@@ -40,8 +38,8 @@ thread_local! {
 #[derive(Clone, Debug)]
 pub struct TFn {
     pub idx: usize,
-    pub reads: u8,
-    pub writes: u8,
+    pub reads: Mask,
+    pub writes: Mask,
     /// Incremented through the `&mut F` the `_mut` APIs hand out.
     pub runs: u32,
 }
@@ -53,12 +51,13 @@ impl PartialEq for TFn {
 }
 impl Eq for TFn {}
 
-fn ids(mask: u8) -> TypeIds {
+fn ids(mask: Mask) -> TypeIds {
     let mut v = TypeIds::new();
-    for t in 0..8 {
-        if mask >> t & 1 == 1 {
-            v.push(type_id_of(t));
-        }
+    let mut m = mask;
+    while m != 0 {
+        let t = m.trailing_zeros() as usize;
+        v.push(type_id_of(t));
+        m &= m - 1;
     }
     v
 }
@@ -168,4 +167,23 @@ pub fn built_of(g: &FnGraph<TFn>) -> Built {
         .map(|e| (e.source().index(), e.target().index(), bk(e.weight)))
         .collect();
     Built::new(n, edges)
+}
+
+/// Runs `f` (a build of a graph with n functions) with a generous budget on the RankCalc queue
+/// pops (n^3 + 10^4), so that a build that would never terminate (e.g. on a graph that wrongly
+/// contains a cycle) panics instead of hanging the worker; C11 reports that panic. C18 sets its
+/// own, tight budget.
+pub fn guarded<R>(n: usize, f: impl FnOnce() -> R) -> R {
+    use fn_graph::verif_hooks as vh;
+    let n = n as u64;
+    vh::rank_calc_pops_reset();
+    vh::set_rank_calc_pop_budget(Some(n * n * n + 10_000));
+    struct Reset;
+    impl Drop for Reset {
+        fn drop(&mut self) {
+            fn_graph::verif_hooks::set_rank_calc_pop_budget(None);
+        }
+    }
+    let _r = Reset;
+    f()
 }
